@@ -334,7 +334,7 @@ def replay(prop, payload):
 # C20: tracing integration (one process per driven run: the subscriber is global)
 # ---------------------------------------------------------------------------
 
-NTRACING = {"quick": 48, "thorough": 600}
+NTRACING = {"quick": 96, "thorough": 3000}
 
 
 def tracing_cases(n):
